@@ -59,13 +59,13 @@ let const_of = function
 
 let uop_of = function "UNot" -> UNot | "USub" -> USub | "UAdd" -> UAdd | "UInvert" -> UInvert | s -> failwith s
 let bop_of = function
-  | "Add" -> Add | "Sub" -> Sub | "Mult" -> Mult | "Div" -> Div | "FloorDiv" -> FloorDiv | "Mod" -> Mod
-  | "Pow" -> Pow | "LShift" -> LShift | "RShift" -> RShift | "BitOr" -> BitOr | "BitXor" -> BitXor
-  | "BitAnd" -> BitAnd | "MatMult" -> MatMult | s -> failwith s
+  | "Add" -> BAdd | "Sub" -> BSub | "Mult" -> BMult | "Div" -> BDiv | "FloorDiv" -> BFloorDiv | "Mod" -> BMod
+  | "Pow" -> BPow | "LShift" -> BLShift | "RShift" -> BRShift | "BitOr" -> BBitOr | "BitXor" -> BBitXor
+  | "BitAnd" -> BBitAnd | "MatMult" -> BMatMult | s -> failwith s
 let boolop_of = function "And" -> And | "Or" -> Or | s -> failwith s
 let cmpop_of = function
-  | "Eq" -> Eq | "NotEq" -> NotEq | "Lt" -> Lt | "LtE" -> LtE | "Gt" -> Gt | "GtE" -> GtE
-  | "Is" -> Is | "IsNot" -> IsNot | "In" -> In | "NotIn" -> NotIn | s -> failwith s
+  | "Eq" -> CEq | "NotEq" -> CNotEq | "Lt" -> CLt | "LtE" -> CLtE | "Gt" -> CGt | "GtE" -> CGtE
+  | "Is" -> CIs | "IsNot" -> CIsNot | "In" -> CIn | "NotIn" -> CNotIn | s -> failwith s
 
 let atom = function A s -> s | _ -> failwith "atom expected"
 let lst = function L l -> l | _ -> failwith "list expected"
@@ -114,13 +114,13 @@ let str_const = function
 
 let str_uop = function UNot -> "UNot" | USub -> "USub" | UAdd -> "UAdd" | UInvert -> "UInvert"
 let str_bop = function
-  | Add -> "Add" | Sub -> "Sub" | Mult -> "Mult" | Div -> "Div" | FloorDiv -> "FloorDiv" | Mod -> "Mod"
-  | Pow -> "Pow" | LShift -> "LShift" | RShift -> "RShift" | BitOr -> "BitOr" | BitXor -> "BitXor"
-  | BitAnd -> "BitAnd" | MatMult -> "MatMult"
+  | BAdd -> "Add" | BSub -> "Sub" | BMult -> "Mult" | BDiv -> "Div" | BFloorDiv -> "FloorDiv" | BMod -> "Mod"
+  | BPow -> "Pow" | BLShift -> "LShift" | BRShift -> "RShift" | BBitOr -> "BitOr" | BBitXor -> "BitXor"
+  | BBitAnd -> "BitAnd" | BMatMult -> "MatMult"
 let str_boolop = function And -> "And" | Or -> "Or"
 let str_cmpop = function
-  | Eq -> "Eq" | NotEq -> "NotEq" | Lt -> "Lt" | LtE -> "LtE" | Gt -> "Gt" | GtE -> "GtE"
-  | Is -> "Is" | IsNot -> "IsNot" | In -> "In" | NotIn -> "NotIn"
+  | CEq -> "Eq" | CNotEq -> "NotEq" | CLt -> "Lt" | CLtE -> "LtE" | CGt -> "Gt" | CGtE -> "GtE"
+  | CIs -> "Is" | CIsNot -> "IsNot" | CIn -> "In" | CNotIn -> "NotIn"
 
 let rec str_expr (e : expr) : string =
   let l es = "(" ^ String.concat " " (List.map str_expr es) ^ ")" in
